@@ -8,4 +8,5 @@ CONSTANTS
 INVARIANT SamePlaceEveryFrame
 INVARIANT EndsBelowBox
 INVARIANT InterruptedRunRestores
+INVARIANT FinalizedBeforeReturn
 CHECK_DEADLOCK FALSE
